@@ -3006,6 +3006,13 @@ efun_override: L_EFUN L_COLON_COLON identifier {
             p = strput(buf, end, "Unknown efun: ");
             p = strput(p, end, $3);
             yyerror(buf);
+        } else if (sp + 3 >= end_of_stack) {
+            /* no room for the arguments of valid_override(): pushing them would raise
+             * "Stack overflow" and abandon the compilation in the middle of yyparse(),
+             * which leaves compile_file() busy for ever (load_object() only makes
+             * sure of two entries) */
+            yyerror("Value stack is full: cannot ask the master object about efun:: (valid_override).");
+            $$ = -1;
         } else {
             push_malloced_string(the_file_name(current_file));
             share_and_push_string($3);
@@ -3023,14 +3030,20 @@ efun_override: L_EFUN L_COLON_COLON identifier {
         svalue_t *res;
         
         ihe = lookup_ident("clone_object");
-        push_malloced_string(the_file_name(current_file));
-        push_constant_string("clone_object");
-        push_malloced_string(add_slash(main_file_name()));
-        res = safe_apply_master_ob(APPLY_VALID_OVERRIDE, 3);
-        if (!MASTER_APPROVED(res)) {
-            yyerror("Invalid simulated efunction override");
+        if (sp + 3 >= end_of_stack) {
+            /* see above */
+            yyerror("Value stack is full: cannot ask the master object about efun:: (valid_override).");
             $$ = -1;
-        } else $$ = ihe->dn.efun_num;
+        } else {
+            push_malloced_string(the_file_name(current_file));
+            push_constant_string("clone_object");
+            push_malloced_string(add_slash(main_file_name()));
+            res = safe_apply_master_ob(APPLY_VALID_OVERRIDE, 3);
+            if (!MASTER_APPROVED(res)) {
+                yyerror("Invalid simulated efunction override");
+                $$ = -1;
+            } else $$ = ihe->dn.efun_num;
+        }
       }
     ;
     
